@@ -71,6 +71,7 @@ structure Mid (c : C) (r : List Task) (ph : Bool) : Prop where
   c7 : ∀ k, c.connection = some k → ∃ x, findIn c.conns k = some x ∧ x.st ≠ .disconnected ∧ x.closeCb = .client
   c8 : ∀ k, .forceCloseInLoop k ∈ r ++ c.pending → ∃ x, findIn c.conns k = some x ∧ x.closeCb = .detached
   c9 : ∀ k, .connectDestroyed k ∈ r ++ c.pending → ∃ x, findIn c.conns k = some x ∧ x.st = .disconnected
+  c10 : ∀ x ∈ c.conns, x.closeCb = .detached → c.clientAlive = false
   g1 : c.delay = specDelay c.nretry
   g3 : c.stopReq = true → c.cConnect = false ∧ c.tConnect = false
   t1 : ∃ s, scan c.trace = some s ∧ Rel s c.nsock c.sockSt c.conns c.ups c.nretry c.stopReq c.clientAlive
